@@ -414,3 +414,51 @@ func ReturnedValue(r *ssa.Return, idx int) ssa.Value {
 	}
 	return v
 }
+
+// SameExpr: a and b are structurally the same pure expression over the same variables: identical values, equal constants,
+// len/cap of the same expression, the same operator applied to the same operands, loads of the same variable (SameVar).
+func SameExpr(a, b ssa.Value) bool {
+	return sameExpr(a, b, 0)
+}
+
+func sameExpr(a, b ssa.Value, depth int) bool {
+	if a == nil || b == nil || depth > 6 {
+		return false
+	}
+	a, b = Strip(a), Strip(b)
+	if a == b || SameVar(a, b) {
+		return true
+	}
+	switch x := a.(type) {
+	case *ssa.Const:
+		y, ok := b.(*ssa.Const)
+		if !ok {
+			return false
+		}
+		if x.Value == nil || y.Value == nil {
+			return x.Value == nil && y.Value == nil && types.Identical(x.Type(), y.Type())
+		}
+		return x.Value.ExactString() == y.Value.ExactString()
+	case *ssa.Call:
+		y, ok := b.(*ssa.Call)
+		if !ok {
+			return false
+		}
+		bx, okx := x.Call.Value.(*ssa.Builtin)
+		by, oky := y.Call.Value.(*ssa.Builtin)
+		if !okx || !oky || bx.Name() != by.Name() || (bx.Name() != "len" && bx.Name() != "cap") || len(x.Call.Args) != 1 || len(y.Call.Args) != 1 {
+			return false
+		}
+		return sameExpr(x.Call.Args[0], y.Call.Args[0], depth+1)
+	case *ssa.BinOp:
+		y, ok := b.(*ssa.BinOp)
+		return ok && x.Op == y.Op && sameExpr(x.X, y.X, depth+1) && sameExpr(x.Y, y.Y, depth+1)
+	case *ssa.UnOp:
+		y, ok := b.(*ssa.UnOp)
+		return ok && x.Op == y.Op && x.Op != token.MUL && sameExpr(x.X, y.X, depth+1)
+	case *ssa.Convert:
+		y, ok := b.(*ssa.Convert)
+		return ok && types.Identical(x.Type(), y.Type()) && sameExpr(x.X, y.X, depth+1)
+	}
+	return false
+}
